@@ -35,7 +35,7 @@ demo_changed=$(run_demo changed)
 # checker on the changed tree
 cd /verif; . ./env.sh
 out=$(bin/ergocheck -rules all -repo "$wt" 2>&1)
-fired=$(echo "$out" | grep -v 'field Graph.Tombstones' | awk '$2=="violated"||$2=="undecided"{print $1}' | sort -u | grep -v '^RD3$\|^OU1$' | tr '\n' ' ')
+fired=$(echo "$out" | grep -v 'field Graph.Tombstones\|prefix-bytes-preserved' | awk '$2=="violated"||$2=="undecided"{print $1}' | sort -u | grep -v '^RD3$\|^OU1$' | tr '\n' ' ')
 ou1=$(echo "$out" | awk '$2=="violated"&&$1=="OU1"' | grep -v 'RunQuickstart\|printVersion\|UsageText\|init#9' | wc -l)
 [ "$ou1" -gt 0 ] && fired="$fired OU1"
 echo "{\"id\":\"$id\",\"applies\":\"$applies\",\"build\":\"$build\",\"tests_pass\":$pass,\"tests_fail\":$fail,\"failed\":\"$failed\",\"demo_unchanged_rc\":$demo_unchanged,\"demo_changed_rc\":$demo_changed,\"rules_fired\":\"$fired\"}"
